@@ -220,6 +220,11 @@ def measure(np, build, call, receiver=None):
 
 # ---- memory-layout variants of the operands (wave 3) ---------------------------------------------------------
 LAYOUTS = ("C", "F", "strided")
+# wave 4: views a caller may hand in.  "Tview" = F-contiguous window that does NOT own its data (transpose of a C-ordered
+# array; tensor.data / tenmat.data are replaced by such a window too), "negstride" = a reversed view (negative stride
+# in the first mode), "readonly" = every array reachable from a non-receiver operand has write=False: an operation that
+# writes into an operand then RAISES instead of silently mutating it (second detector, independent of the digests)
+LAYOUTS_W4 = ("Tview", "negstride", "readonly")
 
 
 def lay(np, a, mode):
@@ -235,7 +240,26 @@ def lay(np, a, mode):
         big = np.zeros((2 * a.shape[0],) + tuple(a.shape[1:]), dtype=a.dtype)
         big[::2] = a
         return big[::2]
+    if mode == "Tview":
+        if a.ndim >= 2:
+            return np.ascontiguousarray(a.T).T
+        big = np.concatenate([a, a])
+        return big[:a.shape[0]]
+    if mode == "negstride":
+        return a[::-1].copy()[::-1]
+    if mode == "readonly":
+        return a
     raise ValueError(mode)
+
+
+def freeze(np, x, name="x"):
+    """write=False on every array reachable from x (the caller's operand is a read-only array / built on one)"""
+    n = 0
+    for _p, a in reach(np, x, name)[0]:
+        if a.flags.writeable:
+            a.setflags(write=False)
+            n += 1
+    return n
 
 
 def relayout(np, x, mode, depth=0):
@@ -263,6 +287,8 @@ def relayout(np, x, mode, depth=0):
     elif tn in ("sptensor", "sptenmat"):
         x.subs = lay(np, x.subs, mode)
         x.vals = lay(np, x.vals, mode)
+    elif tn in ("tensor", "tenmat") and mode == "Tview":
+        x.data = lay(np, x.data, mode)          # still F-contiguous (the class invariant), but a window onto another base
     elif tn == "sumtensor":
         for p in x.parts:
             relayout(np, p, mode, depth + 1)
